@@ -128,7 +128,7 @@ def lattice(thorough):
                 for c2 in (0, 1):
                     if (kern != 0 and coord != 0) or (corr and coord not in (0, 3)):
                         continue
-                    for safe in ((1, 0) if (corr or c2 or kern != 0) else (1,)):
+                    for safe in (1, 0):
                         def st(sim, coord=coord, kern=kern, corr=corr, c2=c2, safe=safe):
                             sim.integrator = "whfast"
                             sim.ri_whfast.coordinates = coord
@@ -215,41 +215,92 @@ WH_FAMILY = ("whfast", "saba", "mercurius", "trace")
 FIELD = (0.01, -0.02, 0.005)        # uniform extra acceleration (times n_inner^2): every particle gets x += g t^2/2, v += g t
 
 
-def variant_applies(var, cfg, sysd):
-    fam, nm = cfg["fam"], cfg["name"]
-    if var is None:
-        return True
-    if var == "field":
-        # the exact modified kick is documented to support Newtonian gravity only
-        return not ("/modifiedkick/" in nm or (fam == "saba" and 0x100 <= int(nm.split("/")[1], 16) < 0x200))
-    if var == "variational":
-        return (fam == "whfast" and "/jacobi/default/" in nm) or fam in ("eos", "leapfrog")
-    if var in ("exact_finish", "split_safe1"):
-        return cfg.get("safe", 1) == 1 and fam != "janus" or (var == "split_safe1" and fam == "janus")
-    if var == "keep_unsynchronized":
-        return fam in ("whfast", "saba") and cfg.get("safe") == 0
-    if var == "reversal":
-        return fam != "trace"
-    return True          # callbacks, restore_copy, restore_file
+# ------------------------------------------------------------------------------------------------ factors of a run (pairwise conjunctions)
+# Every run of the slope search is a value assignment to these factors (plus cfg = lattice member, system, dir = sign of dt).
+# The plain run is (one_call, none, none, none, 0, 0, py).
+FACTORS = {
+    # what happens at the first boundary (after ~n/3 steps; reversal: after n + n/4 steps)
+    "pattern": ["one_call", "explicit_sync", "split3", "exact_outputs", "reversal", "restore_copy", "restore_file"],
+    # EVENT ADJACENCY: the event that happens exactly ONE step after the boundary event
+    "adj": ["none", "explicit_sync", "exact_output", "restore_copy", "dt_change"],
+    # user edit right after the boundary event (before the next step)
+    "edit": ["none", "rewrite_particles", "dt_halved"],
+    "cb": ["none", "field", "callbacks"],
+    "var": [0, 1],
+    "keep": [0, 1],
+    # public entry point that advances the simulation
+    "stepper": ["py", "c", "c_part12"],
+}
+FORDER = ["cfg", "system", "dir", "pattern", "adj", "edit", "cb", "var", "keep", "stepper"]
+PLAIN = dict(pattern="one_call", adj="none", edit="none", cb="none", var=0, keep=0, stepper="py")
 
 
-VARIANTS = ["field", "callbacks", "variational", "split_safe1", "exact_finish", "restore_copy", "restore_file", "keep_unsynchronized", "reversal"]
-DIM_OF_VARIANT = {"field": "additional_force_uniform_field", "callbacks": "callbacks_installed", "variational": "variational_particles_present",
-                  "split_safe1": "integrate_split_into_calls", "exact_finish": "exact_finish_time_1", "restore_copy": "restore_midrun_copy",
-                  "restore_file": "restore_midrun_archive", "keep_unsynchronized": "keep_unsynchronized_with_explicit_synchronize",
-                  "reversal": "direction_reversal_between_calls"}
+def pair_excluded(f, a, g, b, cfgs, sysmap):
+    """None if the value pair can occur together, else the reason it is excluded (combinations the code rejects or that have no
+    meaning); all constraints are pairwise, a case is valid iff none of its pairs is excluded"""
+    v = {f: a, g: b}
+    cfg = cfgs[v["cfg"]] if "cfg" in v else None
+    sd = sysmap[v["system"]] if "system" in v else None
+    if cfg is not None:
+        fam, nm = cfg["fam"], cfg["name"]
+        if sd is not None:
+            if sd.get("only") and fam not in sd["only"]:
+                return "softening is only honoured by integrators that take every pair force from the gravity routine"
+            if fam in ("leapfrog", "janus") and sd["name"] in ("heavy3", "nine"):
+                return "non-perturbative integrators: these systems add nothing but long ladders"
+            if fam not in ("eos", "leapfrog", "janus") and sd["name"] == "kepler2":
+                return "two bodies are solved exactly by Kepler-based splittings"
+        if v.get("dir") == -1 and fam == "trace":
+            return "TRACE with dt<0 is finding F10 (checked separately in a subprocess)"
+        if v.get("pattern") == "reversal" and fam == "trace":
+            return "TRACE with dt<0 is finding F10"
+        if v.get("cb") == "field" and ("/modifiedkick/" in nm or (fam == "saba" and 0x100 <= int(nm.split("/")[1], 16) < 0x200)):
+            return "the exact modified kick is documented to support Newtonian gravity only"
+        if v.get("var") == 1 and not ((fam == "whfast" and "/jacobi/default/" in nm) or fam in ("eos", "leapfrog")):
+            return "variational particles are rejected or unsupported by this integrator configuration"
+        if v.get("keep") == 1 and not (fam in ("whfast", "saba") and cfg.get("safe") == 0):
+            return "keep_unsynchronized exists only for WHFast/SABA and is rejected with safe_mode=1"
+        if v.get("stepper") == "c_part12" and fam == "janus" and False:
+            return None
+    if v.get("pattern") == "one_call" and v.get("edit", "none") != "none":
+        return "an edit needs a call boundary"
+    if v.get("pattern") == "one_call" and v.get("adj", "none") != "none":
+        return "an adjacent event needs a call boundary"
+    if v.get("keep") == 1 and v.get("edit") == "rewrite_particles":
+        return "with keep_unsynchronized the integrator continues from its internal state: particle edits are documented to be ignored"
+    if v.get("keep") == 1 and v.get("edit") == "dt_halved":
+        return "changing dt requires a synchronized state; keep_unsynchronized never leaves one"
+    if v.get("keep") == 1 and v.get("adj") == "dt_change":
+        return "changing dt requires a synchronized state; keep_unsynchronized never leaves one"
+    if v.get("keep") == 1 and v.get("pattern") == "reversal":
+        return "changing the sign of dt requires a synchronized state"
+    if v.get("keep") == 1 and (v.get("pattern") == "exact_outputs" or v.get("adj") == "exact_output"):
+        return "a shortened last step followed by a continued unsynchronized run mixes two step sizes in one drift"
+    if v.get("stepper") == "c_part12" and v.get("var") == 1:
+        return "the manual part1/force/part2 sequence omits reb_simulation_rescale_var"
+    if v.get("stepper") == "c_part12" and v.get("cb") == "callbacks":
+        return "pre/post timestep callbacks are invoked by reb_simulation_step only"
+    return None
 
 
-def run_case(rebound, sysd, cfg, dt, T, variant=None):
-    """fixed-step run of n = T/|dt| steps; returns the final state (synchronized).  `variant` crosses the run with one of the
-    cross-cutting dimensions; the reference is adjusted by ref_adjust()."""
-    sim = make_sim(rebound, sysd)
-    cfg["set"](sim)
-    n = max(1, int(round(abs(T) / abs(dt))))
-    sim.dt = T / n
+def case_valid(case, cfgs, sysmap):
+    ks = [k for k in FORDER if k in case]
+    for i, f in enumerate(ks):
+        for g in ks[i + 1:]:
+            if pair_excluded(f, case[f], g, case[g], cfgs, sysmap) is not None:
+                return False
+    return True
+
+
+def case_pairs(case):
+    ks = [k for k in FORDER if k in case]
+    return [(f, case[f], g, case[g]) for i, f in enumerate(ks) for g in ks[i + 1:]]
+
+
+def install(sim, sysd, case, keepalive):
+    """callbacks / additional forces (also re-installed after a restore, as a user has to)"""
     n_inner = math.sqrt(sysd["G"])
-    keep = []
-    if variant == "field":
+    if case["cb"] == "field":
         g = [x * n_inner ** 2 for x in FIELD]
 
         def frc(simp):
@@ -261,8 +312,8 @@ def run_case(rebound, sysd, cfg, dt, T, variant=None):
                 ps[i].az += g[2]
         sim.additional_forces = frc
         sim.force_is_velocity_dependent = 0
-    elif variant == "callbacks":
-        cnt = [0, 0, 0]
+    elif case["cb"] == "callbacks":
+        cnt = keepalive.setdefault("cnt", [0, 0, 0])
 
         def hb(simp):
             cnt[0] += 1
@@ -275,76 +326,162 @@ def run_case(rebound, sysd, cfg, dt, T, variant=None):
         sim.heartbeat = hb
         sim.pre_timestep_modifications = pre
         sim.post_timestep_modifications = post
-        keep.append(cnt)
-    elif variant == "variational":
+
+
+ENTRY_USED = {}
+
+
+def used(name):
+    ENTRY_USED[name] = ENTRY_USED.get(name, 0) + 1
+
+
+def run_case(rebound, sysd, cfg, dt, T, case=None):
+    """one run of n = T/|dt| steps under the factor assignment `case`; returns (t, synchronized final state)"""
+    case = dict(PLAIN, **(case or {}))
+    clib = rebound.clibrebound
+    sim = make_sim(rebound, sysd)
+    cfg["set"](sim)
+    n = max(1, int(round(abs(T) / abs(dt))))
+    sim.dt = T / n
+    keepalive = {}
+    install(sim, sysd, case, keepalive)
+    if case["var"]:
         v = sim.add_variation()
         v.particles[1].x = 1e-3
         v.particles[1].vy = -2e-3
-        v.particles[2].z = 5e-4
-    elif variant == "keep_unsynchronized":
+        v.particles[len(sysd["bodies"]) - 1].z = 5e-4
+    if case["keep"]:
         if cfg["fam"] == "whfast":
             sim.ri_whfast.keep_unsynchronized = 1
         else:
             sim.ri_saba.keep_unsynchronized = 1
-    split = (cfg.get("safe") == 0 or variant == "split_safe1") and n >= 3
-    if variant == "keep_unsynchronized" and n >= 3:
-        # explicit synchronize() between calls must not disturb the continued integration; outputs are read at the end
-        sim.steps(n // 3)
-        sim.synchronize()
-        mid = state_of(sim)
-        sim.steps(n - n // 3)
-        sim.synchronize()
-    elif variant in ("restore_copy", "restore_file") and n >= 2:
-        sim.steps(n // 2)
-        if cfg.get("safe") == 0:
-            sim.synchronize()
-        if variant == "restore_copy":
-            sim = sim.copy()
+    stp = case["stepper"]
+    box = [sim]                 # the simulation object may be replaced by a restore
+
+    def advance(k):
+        sim_ = box[0]
+        if k <= 0:
+            return
+        if stp == "py":
+            if k == 1:
+                sim_.step(); used("py:step")
+            else:
+                sim_.steps(k); used("py:steps")
+        elif stp == "c":
+            if k == 1:
+                clib.reb_simulation_step(ctypes.byref(sim_)); used("reb_simulation_step")
+            else:
+                clib.reb_simulation_steps(ctypes.byref(sim_), ctypes.c_uint(k)); used("reb_simulation_steps")
+        else:
+            r = ctypes.byref(sim_)
+            for _ in range(k):
+                clib.reb_integrator_part1(r)
+                clib.reb_simulation_update_acceleration(r)
+                clib.reb_integrator_part2(r)
+            used("reb_integrator_part1"); used("reb_integrator_part2"); used("reb_simulation_update_acceleration")
+
+    def sync():
+        sim_ = box[0]
+        if stp == "py":
+            sim_.synchronize(); used("py:synchronize")
+        else:
+            clib.reb_simulation_synchronize(ctypes.byref(sim_)); used("reb_simulation_synchronize")
+
+    def integ(t, exact):
+        sim_ = box[0]
+        if stp == "py":
+            sim_.integrate(t, exact_finish_time=exact); used("py:integrate")
+        else:
+            sim_.exact_finish_time = exact
+            clib.reb_simulation_integrate.restype = ctypes.c_int
+            rc = clib.reb_simulation_integrate(ctypes.byref(sim_), ctypes.c_double(t)); used("reb_simulation_integrate")
+            if rc != 0:
+                raise RuntimeError("reb_simulation_integrate returned status %d" % rc)
+
+    def restore(kind):
+        sim_ = box[0]
+        if kind == "copy":
+            new = sim_.copy(); used("py:copy")
         else:
             fn = os.path.join(tempfile.gettempdir(), "c01_restore_%d.bin" % os.getpid())
             if os.path.exists(fn):
                 os.remove(fn)
-            sim.save_to_file(fn)
-            sim = rebound.Simulation(fn)
+            sim_.save_to_file(fn)
+            new = rebound.Simulation(fn); used("py:Simulation(file)")
             os.remove(fn)
-        sim.steps(n - n // 2)
-        sim.synchronize()
-    elif variant == "reversal" and n >= 4:
-        m_ = n // 4
-        sim.steps(n + m_)
-        sim.synchronize()
-        sim.dt = -sim.dt
-        sim.steps(m_)
-        sim.synchronize()
-    elif variant == "exact_finish" and n >= 2:
-        sim.steps(n - 1)
-        sim.dt = sim.dt * 1.37          # the last step must be shortened by reb_simulation_integrate to land on T exactly
-        sim.integrate(T)
-        if sim.t != T:
-            raise RuntimeError("integrate(T) with exact_finish_time=1 ended at %r, not %r" % (sim.t, T))
-    elif split:
-        # manual-synchronisation mode (and, as a variant, safe mode too): three reb_simulation_integrate calls, each returning in a
-        # synchronised state after a whole number of steps (target half a step before the last one; exact_finish_time = 0), so that
-        # the first step after every synchronisation is exercised
-        done = 0
-        for nk in (n // 3, n // 3, n - 2 * (n // 3)):
-            done += nk
-            sim.integrate((done - 0.5) * sim.dt, exact_finish_time=0)
-        if abs(sim.t - T) > 1e-9 * abs(T):
-            raise RuntimeError("split integrate ended at t=%r instead of %r" % (sim.t, T))
+        install(new, sysd, case, keepalive)
+        box[0] = new
+
+    pat = case["pattern"]
+    if pat == "one_call":
+        advance(n)
+        sync()
     else:
-        sim.steps(n)
-        sim.synchronize()
-    if variant == "callbacks" and (keep[0][1] == 0 or keep[0][2] == 0):
-        raise RuntimeError("installed pre/post timestep callbacks were never called: %s" % keep[0])
+        n1 = max(1, n // 3)
+        # ---- boundary event
+        if pat == "explicit_sync":
+            advance(n1); sync()
+        elif pat == "split3":
+            integ((n1 - 0.5) * sim.dt, 0)
+        elif pat == "exact_outputs":
+            integ(0.31 * T, 1)
+        elif pat == "reversal":
+            advance(n + max(1, n // 4)); sync()
+            box[0].dt = -box[0].dt
+        elif pat == "restore_copy":
+            advance(n1); sync(); restore("copy")
+        elif pat == "restore_file":
+            advance(n1); sync(); restore("file")
+        # ---- user edit right after it
+        sim_ = box[0]
+        if case["edit"] == "rewrite_particles":
+            # the user touches the particle data (here: writes back identical values) and raises the documented flags
+            for p_ in sim_.particles[:sim_.N]:
+                p_.x, p_.y, p_.z, p_.vx, p_.vy, p_.vz, p_.m = p_.x, p_.y, p_.z, p_.vx, p_.vy, p_.vz, p_.m
+            sim_.ri_whfast.recalculate_coordinates_this_timestep = 1
+            sim_.ri_mercurius.recalculate_coordinates_this_timestep = 1
+            sim_.ri_mercurius.recalculate_r_crit_this_timestep = 1
+            sim_.ri_janus.recalculate_integer_coordinates_this_timestep = 1
+        elif case["edit"] == "dt_halved":
+            sim_.dt = sim_.dt / 2
+        # ---- the adjacent event, exactly one step later
+        if case["adj"] != "none":
+            advance(1)
+            sim_ = box[0]
+            if case["adj"] == "explicit_sync":
+                sync()
+            elif case["adj"] == "exact_output":
+                integ(sim_.t + 0.4 * sim_.dt, 1)
+            elif case["adj"] == "restore_copy":
+                sync(); restore("copy")
+            elif case["adj"] == "dt_change":
+                sync()
+                box[0].dt = box[0].dt * 0.8
+        # ---- final leg to T: whole steps, then (if the time is off the grid) one shortened step through integrate(T)
+        sim_ = box[0]
+        rem = (T - sim_.t) / sim_.dt
+        if rem < -1e-9:
+            raise RuntimeError("run overshot the target time: t=%r T=%r dt=%r" % (sim_.t, T, sim_.dt))
+        k = int(math.floor(rem + 1e-9))
+        if pat in ("split3", "exact_outputs") and k >= 2:
+            integ(sim_.t + (k - 0.5) * sim_.dt, 0)
+        else:
+            advance(k)
+        sim_ = box[0]
+        if abs(sim_.t - T) > 1e-11 * max(1.0, abs(T)):
+            integ(T, 1)
+        sync()
+    sim = box[0]
+    if case["cb"] == "callbacks" and (keepalive["cnt"][1] == 0 or keepalive["cnt"][2] == 0):
+        raise RuntimeError("installed pre/post timestep callbacks were never called: %s" % keepalive["cnt"])
     if abs(sim.t - T) > 1e-9 * abs(T):
         raise RuntimeError("run ended at t=%r instead of %r" % (sim.t, T))
     return sim.t, state_of(sim)
 
 
-def ref_adjust(ref_state, sysd, T, variant):
+def ref_adjust(ref_state, sysd, T, case):
     """the exact effect of a variant on the reference solution (only the uniform field has one)"""
-    if variant != "field":
+    if not case or case.get("cb") != "field":
         return ref_state
     N = len(sysd["bodies"])
     g = [x * sysd["G"] for x in FIELD]
@@ -394,7 +531,7 @@ class Refs:
         return self.out
 
 
-def measure_ladder(rebound, sysd, cfg, ref_state, T, n_inner, maxpts=4, nmax=9, variant=None):
+def measure_ladder(rebound, sysd, cfg, ref_state, T, n_inner, maxpts=4, nmax=9, case=None):
     """errors on the dt ladder tau0/2^k, largest first, until `maxpts` errors lie in the window or the error drops below it"""
     N = len(sysd["bodies"])
     pts = []
@@ -403,8 +540,8 @@ def measure_ladder(rebound, sysd, cfg, ref_state, T, n_inner, maxpts=4, nmax=9, 
         dt = math.copysign(TAU0 / n_inner / 2 ** k, T)
         if cfg.get("fam") == "eos" or cfg.get("fam") == "janus" or cfg.get("fam") == "leapfrog":
             pass
-        t, st = run_case(rebound, sysd, cfg, dt, T, variant)
-        if variant == "field" and cfg["fam"] in WH_FAMILY:
+        t, st = run_case(rebound, sysd, cfg, dt, T, case)
+        if case and case.get("cb") == "field" and cfg["fam"] in WH_FAMILY:
             # Wisdom-Holman type integrators do not move the centre of mass under a net external force (known finding
             # C01:wh-family-net-external-force); the uniform field must still leave the motion RELATIVE to the centre of mass exact
             ms = [b["m"] for b in sysd["bodies"]]
@@ -431,7 +568,7 @@ SLOPE_MARGIN = {"eos": 1.0}        # default 0.5 (DESIGN); EOS: inner schemes us
 TAU_ASYM = 0.41                     # slopes are only read off for steps <= 0.4/(inner mean motion)
 
 
-def judge(cfg, sysd, pts, n_inner):
+def judge(cfg, sysd, pts, n_inner, irregular=False):
     """oracle of DESIGN C01 "Calibration".  returns (verdict, detail, error/unscaled envelope).
     too-large : an error above 1e-10 lies outside the envelope K T (eps dt^p1 + eps^2 dt^p2 + ...), K = 100
     low-order : at least three errors in [1e-10, 1e-2] at asymptotic steps, and both the slope over that whole window and the
@@ -450,13 +587,19 @@ def judge(cfg, sysd, pts, n_inner):
         # the ladder was descended to its end (tau = 0.8/2^8) and the error never came down to 1e-2: no convergence
         detail.update(dt=pts[-1][0], error=pts[-1][1])
         return "too-large", detail, worst_ratio
-    win = [(dt, e) for dt, e in pts if ERR_LO <= e <= ERR_HI and dt * n_inner <= TAU_ASYM]
+    # slopes are read off one decade above the floor of the window: between 1e-10 and 1e-9 tiny lower-order terms (test-particle
+    # jerk pairs, reference accuracy, accumulated round-off) flatten the curve of the high-order schemes
+    win = [(dt, e) for dt, e in pts if 10 * ERR_LO <= e <= ERR_HI and dt * n_inner <= TAU_ASYM]
     if len(win) < 3:
         return "no-window", detail, worst_ratio
     overall = math.log(win[0][1] / win[-1][1]) / math.log(win[0][0] / win[-1][0])
     last = math.log(win[-2][1] / win[-1][1]) / math.log(win[-2][0] / win[-1][0])
     lowest = min(t[1] for t in cfg["terms"])
     need = lowest - SLOPE_MARGIN.get(cfg.get("fam"), 0.5)
+    if irregular:
+        # runs with an off-grid output, a shortened last step or a changed dt: the phase of the last partial step varies with dt,
+        # the error is no clean power law (measured wiggle: a factor 2 between neighbouring dt): one order more margin
+        need -= 1.0
     detail.update(slope_overall=float("%.2f" % overall), slope_last=float("%.2f" % last), lowest_advertised=lowest)
     if max(overall, last) < need:
         detail.update(required=need, dt=(win[0][0], win[-1][0]), error=(win[0][1], win[-1][1]))
@@ -464,9 +607,11 @@ def judge(cfg, sysd, pts, n_inner):
     return "ok", detail, worst_ratio
 
 
-def finding_key(cfg, sysd, sg, verdict, variant=None):
+def finding_key(cfg, sysd, sg, verdict, variant=None, case=None):
     """stable key of the input class a failing case belongs to"""
     nm = cfg["name"]
+    if case and case.get("cb") == "callbacks" and case.get("keep") == 1 and cfg["fam"] in ("whfast", "saba"):
+        return "C01:keep-unsynchronized-with-timestep-callbacks"
     if variant == "field-plateau" and cfg["fam"] in WH_FAMILY:
         # heliocentric / barycentric slot-0 conventions: the planets feel the field, slot 0 does not: the error is independent of dt
         # (signature checked by the caller: the errors of the whole ladder agree within a factor 1.5)
@@ -783,6 +928,88 @@ def run(c):
     search(c, rebound, clib, d, syss, refs, focus)
 
 
+def covering_array(L, syss, sysmap):
+    """greedy all-pairs covering array over (cfg, system, dir, pattern, adj, edit, cb, var, keep, stepper) for the NON-plain cases:
+    per lattice member, repeatedly pick, out of 40 random valid candidates, the one covering most still-uncovered pairs, until every
+    admissible (cfg, value) pair is covered; then the same globally for the pairs among the other factors.  Deterministic (own PRNG);
+    the pairs cfg x system x dir are covered by the plain runs and are not forced here."""
+    rng = SplitMix(20260930)
+    vals = dict(FACTORS)
+    vals["system"] = [sd["name"] for sd in syss]
+    vals["dir"] = [1, -1]
+    small = FORDER[1:]
+    uncovered = set()
+    for fi, f in enumerate(small):
+        for g in small[fi + 1:]:
+            for a in vals[f]:
+                for b in vals[g]:
+                    if pair_excluded(f, a, g, b, L, sysmap) is None and not (f in ("system", "dir") and g in ("system", "dir")):
+                        uncovered.add((f, a, g, b))
+    arr = []
+
+    allowed = {}
+
+    def candidate(ci):
+        if ci not in allowed:
+            allowed[ci] = {f: [a for a in vals[f] if pair_excluded("cfg", ci, f, a, L, sysmap) is None and not (f == "pattern" and a == "one_call")]
+                           for f in small}
+        al = allowed[ci]
+        for _ in range(50):
+            cs = {"cfg": ci}
+            for f in small:
+                cs[f] = al[f][rng.next() % len(al[f])]
+            sub = {k: cs[k] for k in small[2:]}          # constraints among the non-cfg factors never involve system / dir
+            if case_valid(sub, L, sysmap):
+                return cs
+        return None
+    for ci in range(len(L)):
+        need = set()
+        for f in FORDER[3:]:
+            for a in vals[f]:
+                if pair_excluded("cfg", ci, f, a, L, sysmap) is None and not (f == "pattern" and a == "one_call"):
+                    need.add((f, a))
+        guard = 0
+        while need and guard < 60:
+            guard += 1
+            best, bs = None, -1
+            for _ in range(16):
+                cs = candidate(ci)
+                if cs is None:
+                    continue
+                sc = 3 * sum(1 for f in FORDER[3:] if (f, cs[f]) in need) + sum(1 for pr in case_pairs({k: cs[k] for k in small}) if pr in uncovered)
+                if sc > bs:
+                    best, bs = cs, sc
+            if best is None:
+                break
+            arr.append(best)
+            for f in FORDER[3:]:
+                need.discard((f, best[f]))
+            for pr in case_pairs({k: best[k] for k in small}):
+                uncovered.discard(pr)
+    guard = 0
+    while uncovered and guard < 2000:
+        guard += 1
+        f, a, g, b = next(iter(uncovered))
+        best, bs = None, -1
+        for _ in range(60):
+            cs = candidate(rng.next() % len(L))
+            if cs is None:
+                continue
+            cs[f], cs[g] = a, b
+            if cs["pattern"] == "one_call" or not case_valid(cs, L, sysmap):
+                continue
+            sc = sum(1 for pr in case_pairs({k: cs[k] for k in small}) if pr in uncovered)
+            if sc > bs:
+                best, bs = cs, sc
+        if best is None:
+            uncovered.discard((f, a, g, b))      # no valid case found for this pair (reported as missing by the accounting)
+            continue
+        arr.append(best)
+        for pr in case_pairs({k: best[k] for k in small}):
+            uncovered.discard(pr)
+    return arr
+
+
 def search(c, rebound, clib, d, syss, refs, focus):
     c._focus = focus
     R = refs.get()
@@ -813,29 +1040,40 @@ def search(c, rebound, clib, d, syss, refs, focus):
         dims[name] = dims.get(name, 0) + k
     ROLES = ["tp0", "tp1", "tp0m", "tp1z", "zeroactive", "single_active"]
     GEOM = ["moving", "offset", "flyby"]
+    sysmap = bysys
+    seen_pairs = set()
+    ncases = {"plain": 0, "array": 0, "threeway": 0}
 
-    def one_case(cfg, sd, sg, variant):
+    def one_case(ci, sd, sg, case, kind):
         nonlocal nrun
+        cfg = L[ci]
         fam = cfg["fam"]
         nm = sd["name"]
         n_inner = math.sqrt(sd["G"])
         T = sg * sd["T"]
-        rs = ref_adjust(ref[nm]["states"][repr(T)], sd, T, variant)
+        full = dict(PLAIN, **(case or {}))
+        plain = (full == PLAIN)
+        rs = ref_adjust(ref[nm]["states"][repr(T)], sd, T, full)
         try:
             if fam == "trace" and sg < 0:
                 v, det, ratio = trace_backward(c, d, sd, rs, n_inner)
             else:
-                pts = measure_ladder(rebound, sd, cfg, rs, T, n_inner, variant=variant)
-                v, det, ratio = judge(cfg, sd, pts, n_inner)
+                pts = measure_ladder(rebound, sd, cfg, rs, T, n_inner, case=full)
+                v, det, ratio = judge(cfg, sd, pts, n_inner, irregular=(full["pattern"] == "exact_outputs" or full["adj"] in ("exact_output", "dt_change")
+                                                                        or full["edit"] == "dt_halved"))
         except Exception as ex:
             v, det, ratio = "exception", {"exception": repr(ex)}, 0.0
-        kvar = variant
-        if variant == "field" and v in ("too-large", "low-order") and fam in WH_FAMILY:
-            es = [e_ for _, e_ in det.get("points", [])]
+        kvar = None if plain else "case"
+        if full["cb"] == "field" and v in ("too-large", "low-order") and fam in WH_FAMILY:
+            es = [e_ for _, e_ in det.get("points", [])][-4:]
             if len(es) >= 4 and max(es) <= 1.5 * min(es):
                 kvar = "field-plateau"
         nrun += 1
+        ncases[kind] += 1
         hist[v] = hist.get(v, 0) + 1
+        if not (fam == "trace" and sg < 0):
+            for pr in case_pairs(dict(full, cfg=ci, system=nm, dir=sg)):
+                seen_pairs.add(pr)
         # ---- dimension bookkeeping
         for dn in sd.get("dims", []):
             dim(dn)
@@ -848,65 +1086,111 @@ def search(c, rebound, clib, d, syss, refs, focus):
         if sg < 0:
             dim("dt_negative")
         if cfg.get("safe") == 0:
-            dim("safe_mode_0_three_integrate_calls")
+            dim("safe_mode_0_three_integrate_calls" if full["pattern"] == "split3" else "safe_mode_0_other_call_patterns")
         if fam == "janus":
             dim("unequal_janus_scales")
         if cfg.get("nondefault"):
             dim("nondefault_integrator_options")
-        if variant:
-            dim(DIM_OF_VARIANT[variant])
-        if not (v in ("too-large", "low-order", "exception") and c.is_known(finding_key(cfg, sd, sg, v, kvar))):
+        for cond, dn in ((full["cb"] == "field", "additional_force_uniform_field"), (full["cb"] == "callbacks", "callbacks_installed"),
+                         (full["var"] == 1, "variational_particles_present"), (full["pattern"] == "split3", "integrate_split_into_calls"),
+                         (full["pattern"] == "exact_outputs" or full["adj"] == "exact_output", "exact_finish_time_1"),
+                         (full["pattern"] == "restore_copy" or full["adj"] == "restore_copy", "restore_midrun_copy"),
+                         (full["pattern"] == "restore_file", "restore_midrun_archive"),
+                         (full["keep"] == 1, "keep_unsynchronized_with_explicit_synchronize"),
+                         (full["pattern"] == "reversal", "direction_reversal_between_calls"),
+                         (full["edit"] == "rewrite_particles", "user_rewrites_particles_and_sets_recalculation_flags"),
+                         (full["edit"] == "dt_halved" or full["adj"] == "dt_change", "user_changes_dt_between_calls"),
+                         (full["adj"] != "none", "event_adjacency_next_step"),
+                         (full["stepper"] != "py", "c_entry_points_as_stepper")):
+            if cond:
+                dim(dn)
+        if not (v in ("too-large", "low-order", "exception") and c.is_known(finding_key(cfg, sd, sg, v, kvar, full))):
             ratios.setdefault(fam, 0.0)
             ratios[fam] = max(ratios[fam], ratio)        # margin statistics exclude the cases that are known findings
-        c.count((cfg["name"], nm, sg, variant), nontrivial=(v in ("ok", "too-large", "low-order")))
+        tag = None if plain else tuple(full[k] for k in FORDER[3:])
+        c.count((cfg["name"], nm, sg, tag), nontrivial=(v in ("ok", "too-large", "low-order")))
         if nrun <= 4:
-            c.sample({"config": cfg["name"], "system": nm, "direction": sg, "variant": variant, "verdict": v, "detail": det})
+            c.sample({"config": cfg["name"], "system": nm, "direction": sg, "case": None if plain else full, "verdict": v, "detail": det})
         if v in ("too-large", "low-order", "exception"):
-            what = "%s on system %s (T=%g%s): %s" % (cfg["name"], nm, T, (", variant " + variant) if variant else "",
+            what = "%s on system %s (T=%g%s): %s" % (cfg["name"], nm, T, "" if plain else ", factors " + json.dumps({k: full[k] for k in FORDER[3:] if full[k] != PLAIN[k]}),
                                                       {"too-large": "error outside the advertised envelope",
                                                        "low-order": "observed order below the advertised one", "exception": "exception"}[v])
-            vkey = finding_key(cfg, sd, sg, v, kvar)
-            if variant and not c.is_known(vkey):
-                vkey += ":" + variant
-            c.violation(vkey, what, dict(config=cfg["name"], system=sd["name"], bodies=sd["bodies"], G=sd["G"], T=T, variant=variant,
+            vkey = finding_key(cfg, sd, sg, v, kvar, full)
+            if not plain and not c.is_known(vkey):
+                vkey += ":" + "/".join("%s=%s" % (k, full[k]) for k in FORDER[3:] if full[k] != PLAIN[k])
+            c.violation(vkey, what, dict(config=cfg["name"], system=sd["name"], bodies=sd["bodies"], G=sd["G"], T=T, factors=full,
                                          N_active=sd["active"], testparticle_type=sd["tp_type"], detail=det,
-                                         how="rv/c01.py: make_sim + cfg.set (+ variant, see run_case); n steps with dt=T/n; compare positions with ref/C01_reference.py"))
+                                         how="rv/c01.py: make_sim + cfg.set, then run_case(case=factors); n steps with dt=T/n; compare positions with ref/C01_reference.py"))
 
+    def systems_for(ci):
+        return [sd_["name"] for sd_ in syss if pair_excluded("cfg", ci, "system", sd_["name"], L, sysmap) is None]
+
+    # ------------------------------------------------------------ (1) plain runs: cfg x system x dir
     for i in order:
         cfg = L[i]
         fam = cfg["fam"]
-        names = ["two_planets", "heavy3", "nine"] + GEOM + ROLES
-        if fam in ("eos", "leapfrog", "janus"):
-            names = ["kepler2"] + names
-        names += [x["name"] for x in syss if x.get("only") and fam in x["only"]]
-        names = [n for n in names if not bysys[n].get("only") or fam in bysys[n]["only"]]
-        if fam in ("leapfrog", "janus"):
-            names = [n for n in names if n not in ("heavy3", "nine")]      # not perturbative: nothing gained, long ladders
+        names = systems_for(i)
         if c.thorough or focus:
             use = [(nm, sg) for nm in names for sg in (1, -1)]
         else:
-            # quick: every member of the lattice on one plain, one particle-role and (every other configuration) one geometry system
+            # quick: every member of the lattice on one plain system, one type-0 and one type-1 role system (round robin, offset by the
+            # seed, so that neighbouring members of a family together see every role system) and, every other time, a geometry system
             pl = [n for n in names if n not in ROLES and n not in GEOM]
-            # particle roles: round robin (offset by the seed) over the type-0 systems and over the type-1 systems, so that neighbouring
-            # members of a family (e.g. the SABA CL types) together see every role system
-            r0 = ["tp0", "single_active", "tp0m", "zeroactive"]
-            r1 = ["tp1", "tp1z"]
-            use = [(c.rng.choice(pl), c.rng.choice([1, -1])), (r0[(i + c.seed) % 4], c.rng.choice([1, -1])), (r1[(i + c.seed) % 2], c.rng.choice([1, -1]))]
-            if c.rng.chance(0.5):
-                use.append((c.rng.choice([n for n in names if n in GEOM]), c.rng.choice([1, -1])))
+            gm = [n for n in names if n in GEOM]
+            rr_ = ["tp0", "tp1", "single_active", "tp1z", "tp0m", "zeroactive"]
+            first = c.rng.choice(pl) if (i + c.seed) % 2 == 0 else c.rng.choice(gm)
+            use = [(first, c.rng.choice([1, -1])), (rr_[(i + c.seed) % 6], c.rng.choice([1, -1]))]
         for nm, sg in use:
             if time.time() - t0 > tlimit:
                 break
-            one_case(cfg, bysys[nm], sg, None)
-        # one (quick) / every (thorough) applicable variant on a random system and direction
-        vs = [v_ for v_ in VARIANTS if variant_applies(v_, cfg, None)]
-        if not (c.thorough or focus):
-            vs = [c.rng.choice(vs)] if vs else []
-        for v_ in vs:
-            if time.time() - t0 > tlimit:
-                break
-            cand = [n for n in names if n not in ("single_active", "kepler2")] if v_ == "variational" else names
-            one_case(cfg, bysys[c.rng.choice(cand)], c.rng.choice([1, -1]) if not (fam == "trace") else 1, v_)
+            one_case(i, bysys[nm], sg, None, "plain")
+    # ------------------------------------------------------------ (3) three-way: pattern x adj x edit for the deferred-synchronisation families
+    reps = [k for k, x in enumerate(L) if x["name"] in ("whfast/jacobi/default/c0/c2_0/safe0", "saba/0x6/safe0", "mercurius/safe0", "eos/lf4/lf/n1/safe0",
+                                                        "whfast/democraticheliocentric/default/c0/c2_0/safe0", "leapfrog")]
+    tw = [(ci, pt, ad, ed) for ci in reps for pt in FACTORS["pattern"] for ad in FACTORS["adj"] for ed in FACTORS["edit"]
+          if case_valid(dict(cfg=ci, pattern=pt, adj=ad, edit=ed), L, sysmap)]
+    c.cov["three_way_pattern_adj_edit"] = {"combinations": len(tw), "run": 0}
+    for j, (ci, pt, ad, ed) in enumerate(tw):
+        if not (c.thorough or focus) and j % 12 != c.seed % 12:
+            continue
+        if time.time() - t0 > tlimit + 15:
+            break
+        names = [n for n in systems_for(ci) if n in ("moving", "offset", "tp0", "tp1", "two_planets")]
+        one_case(ci, bysys[names[j % len(names)]], 1 if (L[ci]["fam"] == "trace" or j % 2) else -1, dict(PLAIN, pattern=pt, adj=ad, edit=ed), "threeway")
+        c.cov["three_way_pattern_adj_edit"]["run"] += 1
+    # ------------------------------------------------------------ (2) greedy all-pairs covering array over all ten factors
+    arr = covering_array(L, syss, sysmap)
+    c.cov["covering_array_size"] = len(arr)
+    if focus:
+        arr = [x for x in arr if x["cfg"] < len(L)]
+    sl = 1 if (c.thorough or focus) else 8
+    for j, cs in enumerate(arr):
+        if j % sl != c.seed % sl:
+            continue
+        if time.time() - t0 > tlimit:
+            break
+        one_case(cs["cfg"], bysys[cs["system"]], cs["dir"], {k: cs[k] for k in FORDER[3:]}, "array")
+    # ------------------------------------------------------------ pair accounting
+    total = excluded = 0
+    missing = []
+    vals = dict(FACTORS)
+    vals["cfg"] = list(range(len(L)))
+    vals["system"] = [sd_["name"] for sd_ in syss]
+    vals["dir"] = [1, -1]
+    for fi, f in enumerate(FORDER):
+        for g in FORDER[fi + 1:]:
+            for a_ in vals[f]:
+                for b_ in vals[g]:
+                    if pair_excluded(f, a_, g, b_, L, sysmap) is not None:
+                        excluded += 1
+                        continue
+                    total += 1
+                    if (f, a_, g, b_) not in seen_pairs:
+                        missing.append([f, L[a_]["name"] if f == "cfg" else a_, g, b_])
+    c.cov["pairs"] = {"covered": total - len(missing), "total": total, "excluded": excluded, "factors": {f: len(vals[f]) for f in FORDER},
+                      "cases": dict(ncases), "missing": missing[:12]}
+    if (c.thorough and not focus) and missing:
+        c.broken.append("pairwise coverage incomplete in the thorough tier: %d of %d applicable factor-value pairs never generated, e.g. %s" % (len(missing), total, missing[:3]))
     c.cov["verdict_histogram"] = hist
     c.cov["worst_error_over_unscaled_envelope_by_family"] = {k: float("%.3g" % v) for k, v in ratios.items()}
     c.cov["rule"] = ("every member of the documented option lattice (WHFast 4 coordinate systems x 4 kernels x 6 first correctors x second corrector "
